@@ -11,6 +11,6 @@ git -C /repo worktree add -q --detach "$WT" HEAD || exit 2
 cleanup() { git -C /repo worktree remove --force "$WT" 2>/dev/null; rm -rf "$WT"; [ -n "${KEEP_OUT:-}" ] || rm -rf "$OUTD"; }
 trap cleanup EXIT
 git -C "$WT" apply "$PATCH" || { echo "trymutant: patch does not apply"; exit 2; }
-cd /verif && VERIF_REPO="$WT" VERIF_OUT="$OUTD" ./check "$PROP" "$@" 2>&1 | grep -v "^check: built" | cut -c1-500 | tail -${TAIL:-6}
+cd /verif && VERIF_REPO="$WT" VERIF_OUT="$OUTD" ./check "$PROP" "$@" 2>&1 | grep -av "^check: built" | cut -c1-500 | tail -${TAIL:-6}
 echo "exit=${PIPESTATUS[0]}"
 [ -n "${KEEP_OUT:-}" ] && echo "out=$OUTD"
